@@ -7,7 +7,8 @@
    `run` folds `call` over a history of events; `spec` is what the property demands: the outcome of a freshly
    constructed grader given the current expect value, else the last successfully supplied one (its debug log then
    carrying no "Expect value inferred" entry), and of a fresh grader ignoring expect when answers are configured.
-   `call_prog` / `create_prog` / `cm_prog` are the programs of the code as it stands; Bridge/Protocol.v shows that
+   `call_prog` / `create_prog` / `cm_prog` are the programs of the code as it stands (call_prog_before_fix is the call
+   protocol before the fixes 6d40b94 / a320343, kept only as a regression reference); Bridge/Protocol.v shows that
    translate/protocol.py regenerates exactly these from mitxgraders/ on every run. *)
 From Coq Require Import ZArith QArith List Bool String.
 From Verif.Lib Require Import ProtocolSyntax.
@@ -34,12 +35,19 @@ Print Assumptions C11_code_switch_program.
 
 (* ---- the call protocol ---------------------------------------------------------------------------------------- *)
 
-(* FULL STATEMENT (C11, call part), for every oracle assignment O, configuration, history h of any length (raising
-   calls included), and next call (e, s):
-       snd (call .. call_prog (run .. call_prog (init_state configured) h) e s) = spec .. call_prog configured h e s.
-   It is FALSE of the code as it stands (C11_call_history_independent_refuted below); what holds is: *)
+(* FULL STATEMENT (C11, call part): for every oracle assignment O, debug on or off, answers configured or not,
+   every history h of any length (raising calls included) and every next call (e, s), the call returns what the
+   property demands.  It holds of the code as it stands (since the fixes 6d40b94 / a320343 to ItemGrader.__call__). *)
+Theorem C11_call_history_independent :
+  forall (E S A L : Type) (dm : bool) (cfg : config) (O : oracles E S A L) (configured : option A)
+         (h : list (event E S)) (e : option E) (s : S),
+  snd (call dm cfg O create_prog call_prog (run dm cfg O create_prog call_prog (init_state configured) h) e s)
+  = spec dm cfg O create_prog call_prog configured h e s.
+Proof. exact code_history_independent. Qed.
+Print Assumptions C11_call_history_independent.
 
-(* (a) graders with configured answers: the full statement, every history, debug on or off *)
+(* graders with configured answers: the special case, and no history ever replaces the configured answers or
+   leaves a flag set *)
 Theorem C11_configured_grader_history_independent :
   forall (E S A L : Type) (dm : bool) (cfg : config) (O : oracles E S A L) (a : A)
          (h : list (event E S)) (e : option E) (s : S),
@@ -48,7 +56,6 @@ Theorem C11_configured_grader_history_independent :
 Proof. exact configured_code. Qed.
 Print Assumptions C11_configured_grader_history_independent.
 
-(* ... and no history ever replaces the configured answers or leaves a flag set *)
 Theorem C11_configured_grader_state_untouched :
   forall (E S A L : Type) (dm : bool) (cfg : config) (O : oracles E S A L) (a : A) (h : list (event E S)),
   let m := run dm cfg O create_prog call_prog (init_state (Some a)) h in
@@ -56,128 +63,77 @@ Theorem C11_configured_grader_state_untouched :
 Proof. exact configured_state_untouched. Qed.
 Print Assumptions C11_configured_grader_state_untouched.
 
-(* (b) graders inferring their answers from expect: the full statement restricted to histories whose events are
-   `event_clean` -- no expect value that passes the schema but fails post-validation, and, when debug output is on,
-   no expect value failing the schema and no valid expect value accompanied by a non-text input.
-   Missing for the full statement: exactly those events (they are genuine defects, see the _refuted theorems). *)
-Theorem C11_inferring_grader_history_independent_partial :
-  forall (E S A L : Type) (dm : bool) (cfg : config) (O : oracles E S A L)
-         (h : list (event E S)) (e : option E) (s : S),
-  forallb (event_clean cfg O) h = true ->
-  snd (call dm cfg O create_prog call_prog (run dm cfg O create_prog call_prog (init_state None) h) e s)
-  = spec dm cfg O create_prog call_prog None h e s.
-Proof. exact (@faithful_history_independent_clean). Qed.
-Print Assumptions C11_inferring_grader_history_independent_partial.
-
-(* the full statement is false of the code as it stands ... *)
-Theorem C11_call_history_independent_refuted :
-  ~ (forall dm cfg (O : oracles Z Z Z Z) configured h e s,
-       snd (call dm cfg O create_prog call_prog (run dm cfg O create_prog call_prog (init_state configured) h) e s)
-       = spec dm cfg O create_prog call_prog configured h e s).
-Proof. exact Witness.faithful_full_statement_false. Qed.
-Print Assumptions C11_call_history_independent_refuted.
-
-(* ... and stays false when no expect value ever fails post-validation (the debug log alone breaks it) *)
-Theorem C11_debuglog_fresh_each_call_refuted :
-  ~ (forall dm cfg (O : oracles Z Z Z Z) configured h e s,
-       (forall x, match o_schema O x with
-                  | inl _ => True
-                  | inr a0 => match o_post O a0 with inl _ => False | inr _ => True end
-                  end) ->
-       snd (call dm cfg O create_prog call_prog (run dm cfg O create_prog call_prog (init_state configured) h) e s)
-       = spec dm cfg O create_prog call_prog configured h e s).
-Proof. exact Witness.faithful_full_statement_false_debug. Qed.
-Print Assumptions C11_debuglog_fresh_each_call_refuted.
-
-(* the witnesses, as computed by the model (Witness.O1 mirrors SingleListGrader(subgrader=StringGrader()):
-   expect 0 = 'a,,b', expect 1 = 'c,d', inputs 0 = 'a,b', 1 = 'c,d'; Witness.O2 mirrors FormulaGrader(debug=True):
-   expect 0 = 5, expect 1 = '1', inputs 0 = 'x', 1 = '1', 5 = a non-text input) *)
-Example C11_poisoned_answers_refuted :
-  Witness.reused false (mkConfig false) Witness.O1 call_prog None [(Some 0, 0)]%Z (Some 1%Z) 1%Z = ORaise (Witness.ce 3)
-  /\ Witness.demanded false (mkConfig false) Witness.O1 call_prog None [(Some 0, 0)]%Z (Some 1%Z) 1%Z
-     = ORet Witness.ok_entry None.
-Proof. exact Witness.w1_poison. Qed.
-Print Assumptions C11_poisoned_answers_refuted.
-
-Example C11_poison_displaces_valid_expect_refuted :
-  Witness.reused false (mkConfig false) Witness.O1 call_prog None [(Some 1, 1); (Some 0, 0)]%Z None 1%Z
-    = ORaise (Witness.ce 3)
-  /\ Witness.demanded false (mkConfig false) Witness.O1 call_prog None [(Some 1, 1); (Some 0, 0)]%Z None 1%Z
-    = ORet Witness.ok_entry None.
-Proof. exact Witness.w1_poison_after_valid. Qed.
-Print Assumptions C11_poison_displaces_valid_expect_refuted.
-
-Example C11_stale_debuglog_refuted :
-  Witness.reused false (mkConfig true) Witness.O2 call_prog None [(Some 0, 0)]%Z (Some 1%Z) 1%Z
-    = ORet Witness.ok_entry (Some [LVersion; LResp 0; LInferred 0; LInferred 1; LChk 7]%Z)
-  /\ Witness.demanded false (mkConfig true) Witness.O2 call_prog None [(Some 0, 0)]%Z (Some 1%Z) 1%Z
-    = ORet Witness.ok_entry (Some [LVersion; LResp 1; LInferred 1; LChk 7]%Z).
-Proof. exact Witness.w2_debuglog. Qed.
-Print Assumptions C11_stale_debuglog_refuted.
-
-Example C11_stale_debuglog_nontext_input_refuted :
-  Witness.reused false (mkConfig true) Witness.O2 call_prog None [(Some 1, 5)]%Z (Some 1%Z) 1%Z
-    = ORet Witness.ok_entry (Some [LVersion; LResp 5; LInferred 1; LInferred 1; LChk 7]%Z)
-  /\ Witness.demanded false (mkConfig true) Witness.O2 call_prog None [(Some 1, 5)]%Z (Some 1%Z) 1%Z
-    = ORet Witness.ok_entry (Some [LVersion; LResp 1; LInferred 1; LChk 7]%Z).
-Proof. exact Witness.w3_debuglog_nontext. Qed.
-Print Assumptions C11_stale_debuglog_nontext_input_refuted.
-
-(* non-vacuity of (b): a clean history with inference, an absent expect and a second valid expect *)
-Example C11_ex_clean_history :
-  Witness.reused false (mkConfig true) Witness.O2 call_prog None [(Some 1, 0); (None, 1); (Some 2, 2)]%Z None 2%Z
-    = ORet Witness.ok_entry (Some [LVersion; LResp 2; LChk 7]%Z)
-  /\ Witness.demanded false (mkConfig true) Witness.O2 call_prog None [(Some 1, 0); (None, 1); (Some 2, 2)]%Z None 2%Z
-    = ORet Witness.ok_entry (Some [LVersion; LResp 2; LChk 7]%Z)
-  /\ forallb (event_clean (mkConfig true) Witness.O2) [(Some 1, 0); (None, 1); (Some 2, 2)]%Z = true.
-Proof. exact Witness.clean_example. Qed.
-Print Assumptions C11_ex_clean_history.
-
-(* ---- the repaired protocol (validate into a local before storing; clear log_created on every exit) ------------- *)
-
-(* the FULL statement holds of call_prog_repaired: all oracles, configured or not, histories of any length *)
-Theorem C11_repaired_call_history_independent :
-  forall (E S A L : Type) (dm : bool) (cfg : config) (O : oracles E S A L) (configured : option A)
-         (h : list (event E S)) (e : option E) (s : S),
-  snd (call dm cfg O create_prog call_prog_repaired
-            (run dm cfg O create_prog call_prog_repaired (init_state configured) h) e s)
-  = spec dm cfg O create_prog call_prog_repaired configured h e s.
-Proof. exact (@repaired_full). Qed.
-Print Assumptions C11_repaired_call_history_independent.
-
-(* after any history the instance state is a function of the last successfully supplied expect value alone *)
-Theorem C11_repaired_state_determined_by_last_supplied_expect :
+(* graders inferring their answers from expect: after any history the instance state is a function of the last
+   successfully supplied expect value alone *)
+Theorem C11_state_determined_by_last_supplied_expect :
   forall (E S A L : Type) (dm : bool) (cfg : config) (O : oracles E S A L) (h : list (event E S)),
-  let m := run dm cfg O create_prog call_prog_repaired (init_state None) h in
+  let m := run dm cfg O create_prog call_prog (init_state None) h in
   st_created m = false /\
   match last_supplied O None h with
   | None => st_answers m = None /\ st_inferring m = false
   | Some ev => exists a, validated O ev = Some a /\ st_answers m = Some a /\ st_inferring m = true
   end.
 Proof. exact repaired_state_determined. Qed.
-Print Assumptions C11_repaired_state_determined_by_last_supplied_expect.
+Print Assumptions C11_state_determined_by_last_supplied_expect.
+
+(* a call whose expect value is rejected (at inference, by the schema, or by post-validation) leaves the stored
+   answers, the inferring flag and log_created exactly as they were *)
+Theorem C11_rejected_expect_leaves_no_trace :
+  forall (E S A L : Type) (dm : bool) (cfg : config) (O : oracles E S A L)
+         (h : list (event E S)) (x : E) (s : S),
+  is_valid O x = false ->
+  let m0 := run dm cfg O create_prog call_prog (init_state None) h in
+  let m1 := fst (call dm cfg O create_prog call_prog m0 (Some x) s) in
+  st_answers m1 = st_answers m0 /\ st_inferring m1 = st_inferring m0 /\ st_created m1 = false.
+Proof. exact code_failed_expect_leaves_no_trace. Qed.
+Print Assumptions C11_rejected_expect_leaves_no_trace.
 
 (* the debug log handed back speaks of the current call only (its input, its expect value) *)
-Theorem C11_repaired_debuglog_fresh_each_call :
+Theorem C11_debuglog_fresh_each_call :
   forall (E S A L : Type) (dm : bool) (cfg : config) (O : oracles E S A L) (configured : option A)
          (h : list (event E S)) (e : option E) (s : S) (v : entry) (lg : list (line E S L)),
-  snd (call dm cfg O create_prog call_prog_repaired
-            (run dm cfg O create_prog call_prog_repaired (init_state configured) h) e s) = ORet v (Some lg) ->
+  snd (call dm cfg O create_prog call_prog (run dm cfg O create_prog call_prog (init_state configured) h) e s)
+    = ORet v (Some lg) ->
   Forall (line_current e s) lg.
-Proof. exact (@repaired_log_current). Qed.
-Print Assumptions C11_repaired_debuglog_fresh_each_call.
+Proof. exact code_log_current. Qed.
+Print Assumptions C11_debuglog_fresh_each_call.
 
-Example C11_ex_repaired_on_the_witnesses :
-  (Witness.reused false (mkConfig false) Witness.O1 call_prog_repaired None [(Some 0, 0)]%Z (Some 1%Z) 1%Z
+(* regression corpus, model side.  Witness.O1 mirrors SingleListGrader(subgrader=StringGrader()): expect 0 = 'a,,b'
+   (passes the schema, fails post-validation), expect 1 = 'c,d', inputs 0 = 'a,b', 1 = 'c,d'; Witness.O2 mirrors
+   FormulaGrader(debug=True): expect 0 = 5 (fails the schema), expect 1 = '1', inputs 0 = 'x', 1 = '1', 5 = a non-text
+   input.  The histories that used to go wrong now give what a fresh grader gives ... *)
+Example C11_ex_corpus_histories_pass :
+  (Witness.reused false (mkConfig false) Witness.O1 call_prog None [(Some 0, 0)]%Z (Some 1%Z) 1%Z
      = ORet Witness.ok_entry None
-   /\ Witness.reused false (mkConfig false) Witness.O1 call_prog_repaired None [(Some 1, 1); (Some 0, 0)]%Z None 1%Z
+   /\ Witness.reused false (mkConfig false) Witness.O1 call_prog None [(Some 1, 1); (Some 0, 0)]%Z None 1%Z
      = ORet Witness.ok_entry None)
-  /\ (Witness.reused false (mkConfig true) Witness.O2 call_prog_repaired None [(Some 0, 0)]%Z (Some 1%Z) 1%Z
+  /\ (Witness.reused false (mkConfig true) Witness.O2 call_prog None [(Some 0, 0)]%Z (Some 1%Z) 1%Z
      = ORet Witness.ok_entry (Some [LVersion; LResp 1; LInferred 1; LChk 7]%Z)
-   /\ Witness.reused false (mkConfig true) Witness.O2 call_prog_repaired None [(Some 1, 5)]%Z (Some 1%Z) 1%Z
+   /\ Witness.reused false (mkConfig true) Witness.O2 call_prog None [(Some 1, 5)]%Z (Some 1%Z) 1%Z
      = ORet Witness.ok_entry (Some [LVersion; LResp 1; LInferred 1; LChk 7]%Z)).
 Proof. exact (conj Witness.w1_repaired Witness.w2_repaired). Qed.
-Print Assumptions C11_ex_repaired_on_the_witnesses.
+Print Assumptions C11_ex_corpus_histories_pass.
+
+(* ... and the corpus is discriminating: the protocol as it was before the fixes fails the statement on it, so a
+   recurrence cannot pass unnoticed *)
+Example C11_ex_corpus_tells_the_old_protocol_apart :
+  (Witness.reused false (mkConfig false) Witness.O1 call_prog_before_fix None [(Some 0, 0)]%Z (Some 1%Z) 1%Z
+     = ORaise (Witness.ce 3)
+   /\ Witness.demanded false (mkConfig false) Witness.O1 call_prog_before_fix None [(Some 0, 0)]%Z (Some 1%Z) 1%Z
+     = ORet Witness.ok_entry None)
+  /\ (Witness.reused false (mkConfig true) Witness.O2 call_prog_before_fix None [(Some 0, 0)]%Z (Some 1%Z) 1%Z
+     = ORet Witness.ok_entry (Some [LVersion; LResp 0; LInferred 0; LInferred 1; LChk 7]%Z)
+   /\ Witness.demanded false (mkConfig true) Witness.O2 call_prog_before_fix None [(Some 0, 0)]%Z (Some 1%Z) 1%Z
+     = ORet Witness.ok_entry (Some [LVersion; LResp 1; LInferred 1; LChk 7]%Z)).
+Proof. exact (conj Witness.w1_poison Witness.w2_debuglog). Qed.
+Print Assumptions C11_ex_corpus_tells_the_old_protocol_apart.
+
+(* non-vacuity: a history with inference, an absent expect, a second valid expect; the outcome is a grade with a log *)
+Example C11_ex_history :
+  Witness.reused false (mkConfig true) Witness.O2 call_prog None [(Some 1, 0); (None, 1); (Some 2, 2)]%Z None 2%Z
+    = ORet Witness.ok_entry (Some [LVersion; LResp 2; LChk 7]%Z).
+Proof. exact Witness.code_example. Qed.
+Print Assumptions C11_ex_history.
 
 (* ---- the matrix negative-power switch --------------------------------------------------------------------------- *)
 
@@ -232,18 +188,15 @@ Theorem C11_frame_no_class_table_written_through_instance :
 Proof. exact no_shared_class_attr_write. Qed.
 Print Assumptions C11_frame_no_class_table_written_through_instance.
 
-(* one reviewed site does write into an author-supplied object: IntervalGrader.__init__ stores the default
-   subgrader in the dictionary it was given *)
-Theorem C11_frame_author_config_untouched_refuted :
-  forallb harmless Verif.Gen.Protocol.gen_rows = false
-  /\ map (fun r => (r_func r, r_target r)) (defects Verif.Gen.Protocol.gen_rows)
-     = [("IntervalGrader.__init__", "use_config['subgrader']")]%string.
-Proof. exact (conj not_all_harmless defects_are). Qed.
-Print Assumptions C11_frame_author_config_untouched_refuted.
+(* no write site changes an object supplied by the author (IntervalGrader.__init__ did, before ff4d9d4; the review
+   table rejects such a row: see old_interval_row_rejected) *)
+Theorem C11_frame_author_config_untouched_partial :
+  forall r, In r Verif.Gen.Protocol.gen_rows -> harmless r = true.
+Proof. exact all_harmless_In. Qed.
+Print Assumptions C11_frame_author_config_untouched_partial.
 
-Theorem C11_frame_harmless_except_that_site :
-  forallb harmless
-    (filter (fun r => negb (existsb (fun d => String.eqb (r_func d) (r_func r) && String.eqb (r_target d) (r_target r))
-                                    (defects Verif.Gen.Protocol.gen_rows))) Verif.Gen.Protocol.gen_rows) = true.
-Proof. exact all_harmless_but_defects. Qed.
-Print Assumptions C11_frame_harmless_except_that_site.
+Example C11_ex_review_table_rejects_a_write_into_the_author_dict :
+  accounted (mkRow "mitxgraders/formulagrader/intervalgrader.py" "IntervalGrader.__init__" RParam "config" "use_config"
+                   "use_config['subgrader']" "assign" FPlain ShItem SNone 1) = false.
+Proof. exact old_interval_row_rejected. Qed.
+Print Assumptions C11_ex_review_table_rejects_a_write_into_the_author_dict.
